@@ -189,7 +189,9 @@ func elemCheck(c *Ctx, cs *elemCase, which string) string {
 		}
 		// meaning: the result, put back at its place in the root, is bisimilar to the element
 		rootCopy := deepCopyJSON(eu[base])
-		if !ptrSet(rootCopy, cl.Elem, r.Out) {
+		if cl.Elem == "" {
+			rootCopy = r.Out // the element is the whole document (a schema that is its own root)
+		} else if !ptrSet(rootCopy, cl.Elem, r.Out) {
 			panic(harnessBug{"cannot place result at " + cl.Elem})
 		}
 		u2 := Universe{}
@@ -479,6 +481,17 @@ func c10Run(c *Ctx) {
 			}
 			run(&elemCase{expCase: expCase{built: *b, Spec: g}, Calls: []call{{Fn: "ExpandSchema", Elem: e, Root: "typed"}, {Fn: "ExpandSchema", Elem: e, Root: "typed"}}, CacheKind: "mem", AltRoot: true})
 			run(&elemCase{expCase: expCase{built: *b, Spec: g}, Calls: []call{{Fn: "ExpandSchema", Elem: e, Root: "generic"}, {Fn: "ExpandSchema", Elem: e, Root: "generic"}}, CacheKind: "lib", AltRoot: true})
+		}
+		// a schema that is its own root (ExpandSchema without a root): the document as a whole, read as a schema
+		// whose definitions are referred to from inside it; only with roots that hold nothing but definitions
+		if singleDoc(g) {
+			gs := g.clone()
+			gs.Entry, gs.LocalRefs = entDefinition, false
+			bs := gs.build()
+			for _, ck := range []string{"", "mem", "lib"} {
+				run(&elemCase{expCase: expCase{built: *bs, Spec: gs}, Calls: []call{{Fn: "ExpandSchema", Elem: "", Root: "nil"}}, CacheKind: ck})
+			}
+			run(&elemCase{expCase: expCase{built: *bs, Spec: gs}, Calls: []call{{Fn: "ExpandSchema", Elem: "", Root: "nil"}, {Fn: "ExpandSchema", Elem: "", Root: "nil"}}, CacheKind: "mem"})
 		}
 		for _, e := range params {
 			one(call{Fn: "ExpandParameterWithRoot", Elem: e, Root: "typed"}, "", nil)
